@@ -7,5 +7,6 @@ CONSTANTS
   Proto = "code"
   RequireLastLeaf = FALSE
   MaxSteps = 4
+  EmitAt = 5
 VIEW view
 INVARIANTS TypeOK AccIsFromScratch
